@@ -115,21 +115,21 @@ Definition script_free (g : gst) : sres (option gst) := mkR (map Free (flat_map 
 
 (* ------------------------------------------------------------------ qtreetbl *)
 (* putobj, key absent: new_obj() = calloc(obj); qmemdup(name); qmemdup(data) -- all requested, then checked *)
-Definition script_tree_put_new (Sz : sizes) (g : gst) (key ns ds : N) (n : N) (al : nat -> bool) : sres gst :=
+Definition script_tree_put_new (Sz : sizes) (g : gst) (key ns ds : N) (dfrom : src) (n : N) (al : nat -> bool) : sres gst :=
   let a0 := al 0%nat in let a1 := al 1%nat in let a2 := al 2%nat in
   let hasd := negb (ds =? 0) in
   let n1 := if a0 then n + 1 else n in
   let n2 := if a1 then n1 + 1 else n1 in
   let e0 := if a0 then [Alloc n TNode (s_tobj Sz)] else [AllocFail TNode (s_tobj Sz)] in
   let e1 := if a1 then [Alloc n1 TName ns; Copy n1 SCaller] else [AllocFail TName ns] in
-  let e2 := if hasd then (if a2 then [Alloc n2 TData ds; Copy n2 SCaller] else [AllocFail TData ds]) else [] in
+  let e2 := if hasd then (if a2 then [Alloc n2 TData ds; Copy n2 dfrom] else [AllocFail TData ds]) else [] in
   if a0 && a1 && (negb hasd || a2)
   then mkR (e0 ++ e1 ++ e2) Done (mkG (hdr g) (mkE key n (Some n1) (if hasd then Some n2 else None) ns ds :: els g)) true
   else nomut g (e0 ++ e1 ++ e2 ++ (if a0 then [Free n] else []) ++ (if a1 then [Free n1] else []) ++ (if hasd && a2 then [Free n2] else [])) Failed.
 (* putobj, key present: the new value is copied before the tree is touched, then the old one is released *)
-Definition script_tree_put_old (g : gst) (p : list elem) (e : elem) (q : list elem) (ds : N) (n : N) (al : nat -> bool) : sres gst :=
+Definition script_tree_put_old (g : gst) (p : list elem) (e : elem) (q : list elem) (ds : N) (dfrom : src) (n : N) (al : nat -> bool) : sres gst :=
   if ds =? 0 then mkR (map Free (olist (edata e))) Done (mkG (hdr g) (p ++ mkE (ekey e) (eobj e) (ename e) None (ensz e) 0 :: q)) true
-  else if al 0%nat then mkR ([Alloc n TData ds; Copy n SCaller] ++ map Free (olist (edata e))) Done
+  else if al 0%nat then mkR ([Alloc n TData ds; Copy n dfrom] ++ map Free (olist (edata e))) Done
                             (mkG (hdr g) (p ++ mkE (ekey e) (eobj e) (ename e) (Some n) (ensz e) ds :: q)) true
   else nomut g [AllocFail TData ds] Failed.
 (* removeobj. The object struct that is released is the key's own (bottom case) or the in-order successor's, whose key and
@@ -145,13 +145,44 @@ Definition script_tree_remove (g : gst) (p : list elem) (e : elem) (q : list ele
     end
   end.
 
-Inductive top := TPut (key ns ds : N) | TGet (key : N) | TRemove (key : N) (succ : option N) | TMin (key : N) | TNext (key : N) | TNone | TClear.
+
+(* ------------------------------------------------------------------ DYNAMIC_VSPRINTF and the formatted put / add methods *)
+(* DYNAMIC_VSPRINTF(s, f): for (size = 1024; ; size *= 2) { s = malloc(size); if (!s) break; n = vsnprintf(s, size, ...); if (n < size) break; free(s); }
+   len = length of the formatted text.  Result: events, the buffer holding the text (None = allocation failure), next id, next request index.
+   The fuel bounds the number of doublings (64 in the step functions: sizes up to 2^73); every round releases what it allocated. *)
+Fixpoint vs_loop (fuel : nat) (len size : N) (al : nat -> bool) (k : nat) (n : N) : list event * option blk * N * nat :=
+  match fuel with
+  | O => ([], None, n, k)
+  | S f =>
+    if al k then
+      if len <? size then ([Alloc n TTmp size], Some n, n + 1, S k)
+      else let '(ev, r, n', k') := vs_loop f len (size * 2) al (S k) (n + 1) in (Alloc n TTmp size :: Free n :: ev, r, n', k')
+    else ([AllocFail TTmp size], None, n, S k)
+  end.
+Definition vs_fuel : nat := 64.
+Definition shift (al : nat -> bool) (k : nat) : nat -> bool := fun i => al (i + k)%nat.
+(* putstrf / addstrf: format into a temporary, run the plain put / add with the temporary as the value source on the container
+   (the temporary is an extra live block while it runs: it is carried in front of the header), release the temporary *)
+Definition with_tmp (g : gst) (len : N) (n : N) (al : nat -> bool) (body : gst -> blk -> N -> (nat -> bool) -> sres gst) : sres gst :=
+  let '(ev, r, n', k') := vs_loop vs_fuel len 1024 al 0%nat n in
+  match r with
+  | None => nomut g ev Failed
+  | Some t => let x := body (mkG (t :: hdr g) (els g)) t n' (shift al k') in
+              mkR (ev ++ evs x ++ [Free t]) (out x) (mkG (hdr g) (els (st' x))) (mutated x)
+  end.
+
+Inductive top := TPut (key ns ds : N) | TPutf (key ns len : N) | TGet (key : N) | TRemove (key : N) (succ : option N) | TMin (key : N) | TNext (key : N) | TNone | TClear.
 Definition tree_step (Sz : sizes) (g : gst) (o : top) (n : N) (al : nat -> bool) : sres gst :=
   match o with
   | TPut key ns ds => match split_key key (els g) with
-                      | Some (p, e, q) => script_tree_put_old g p e q ds n al
-                      | None => script_tree_put_new Sz g key ns ds n al
+                      | Some (p, e, q) => script_tree_put_old g p e q ds SCaller n al
+                      | None => script_tree_put_new Sz g key ns ds SCaller n al
                       end
+  | TPutf key ns len => with_tmp g len n al (fun g1 t n1 al1 =>
+                           match split_key key (els g1) with
+                           | Some (p, e, q) => script_tree_put_old g1 p e q (len + 1) (SBlk t) n1 al1
+                           | None => script_tree_put_new Sz g1 key ns (len + 1) (SBlk t) n1 al1
+                           end)
   | TGet key => match split_key key (els g) with Some (_, e, _) => script_getdata g e n al | None => nomut g [] Nothing end
   | TRemove key succ => match split_key key (els g) with Some (p, e, q) => script_tree_remove g p e q succ | None => nomut g [] Nothing end
   | TMin key => match split_key key (els g) with Some (_, e, _) => script_getname g e n al | None => nomut g [] Nothing end
@@ -162,7 +193,7 @@ Definition tree_step (Sz : sizes) (g : gst) (o : top) (n : N) (al : nat -> bool)
 
 (* ------------------------------------------------------------------ qhashtbl *)
 (* put: strdup(name); malloc(size); check; memcpy; then calloc(obj) for a new key, or release of the old name and value *)
-Definition script_hash_put (Sz : sizes) (g : gst) (found : option (list elem * elem * list elem)) (key ns ds : N) (n : N) (al : nat -> bool) : sres gst :=
+Definition script_hash_put (Sz : sizes) (g : gst) (found : option (list elem * elem * list elem)) (key ns ds : N) (dfrom : src) (n : N) (al : nat -> bool) : sres gst :=
   let a0 := al 0%nat in let a1 := al 1%nat in let a2 := al 2%nat in
   let n1 := if a0 then n + 1 else n in
   let e0 := if a0 then [Alloc n TName ns; Copy n SCaller] else [AllocFail TName ns] in
@@ -170,19 +201,20 @@ Definition script_hash_put (Sz : sizes) (g : gst) (found : option (list elem * e
   if a0 && a1 then
     match found with
     | None =>
-      if a2 then mkR (e0 ++ e1 ++ cp n1 SCaller ds ++ [Alloc (n + 2) TNode (s_hobj Sz)]) Done
+      if a2 then mkR (e0 ++ e1 ++ cp n1 dfrom ds ++ [Alloc (n + 2) TNode (s_hobj Sz)]) Done
                      (mkG (hdr g) (mkE key (n + 2) (Some n) (Some n1) ns ds :: els g)) true
-      else nomut g (e0 ++ e1 ++ cp n1 SCaller ds ++ [AllocFail TNode (s_hobj Sz); Free n; Free n1]) Failed
+      else nomut g (e0 ++ e1 ++ cp n1 dfrom ds ++ [AllocFail TNode (s_hobj Sz); Free n; Free n1]) Failed
     | Some (p, e, q) =>
-      mkR (e0 ++ e1 ++ cp n1 SCaller ds ++ map Free (olist (ename e) ++ olist (edata e))) Done
+      mkR (e0 ++ e1 ++ cp n1 dfrom ds ++ map Free (olist (ename e) ++ olist (edata e))) Done
           (mkG (hdr g) (p ++ mkE (ekey e) (eobj e) (Some n) (Some n1) ns ds :: q)) true
     end
   else nomut g (e0 ++ e1 ++ (if a0 then [Free n] else []) ++ (if a1 then [Free n1] else [])) Failed.
 
-Inductive hop := HPut (key ns ds : N) | HGet (key : N) | HRemove (key : N) | HNext (key : N) | HNone | HClear.
+Inductive hop := HPut (key ns ds : N) | HPutf (key ns len : N) | HGet (key : N) | HRemove (key : N) | HNext (key : N) | HNone | HClear.
 Definition hash_step (Sz : sizes) (g : gst) (o : hop) (n : N) (al : nat -> bool) : sres gst :=
   match o with
-  | HPut key ns ds => script_hash_put Sz g (split_key key (els g)) key ns ds n al
+  | HPut key ns ds => script_hash_put Sz g (split_key key (els g)) key ns ds SCaller n al
+  | HPutf key ns len => with_tmp g len n al (fun g1 t n1 al1 => script_hash_put Sz g1 (split_key key (els g1)) key ns (len + 1) (SBlk t) n1 al1)
   | HGet key => match split_key key (els g) with Some (_, e, _) => script_getdata g e n al | None => nomut g [] Nothing end
   | HRemove key => match split_key key (els g) with Some (p, e, q) => script_remove_elem g p e q | None => nomut g [] Nothing end
   | HNext key => match split_key key (els g) with Some (_, e, _) => script_getpair true g e n al | None => nomut g [] Nothing end
@@ -194,7 +226,7 @@ Definition hash_step (Sz : sizes) (g : gst) (o : hop) (n : N) (al : nat -> bool)
 Definition keyis (k : N) (e : elem) : bool := ekey e =? k.
 (* put: newobj() = strdup(name); malloc(size); malloc(obj) -- all requested, then checked -- memcpy; with the UNIQUE option
    every object of that name is then removed (qlisttbl_remove: in look-up order) before the new one is linked *)
-Definition script_ltbl_put (Sz : sizes) (g : gst) (uniq top fwd : bool) (key ns ds : N) (n : N) (al : nat -> bool) : sres gst :=
+Definition script_ltbl_put (Sz : sizes) (g : gst) (uniq top fwd : bool) (key ns ds : N) (dfrom : src) (n : N) (al : nat -> bool) : sres gst :=
   let a0 := al 0%nat in let a1 := al 1%nat in let a2 := al 2%nat in
   let n1 := if a0 then n + 1 else n in
   let n2 := if a1 then n1 + 1 else n1 in
@@ -205,7 +237,7 @@ Definition script_ltbl_put (Sz : sizes) (g : gst) (uniq top fwd : bool) (key ns 
     let gone := if uniq then filter (keyis key) (els g) else [] in
     let kept := if uniq then filter (fun e => negb (keyis key e)) (els g) else els g in
     let new := mkE key n2 (Some n) (Some n1) ns ds in
-    mkR (e0 ++ e1 ++ e2 ++ cp n1 SCaller ds ++ map Free (flat_map efree (if fwd then gone else rev gone))) Done
+    mkR (e0 ++ e1 ++ e2 ++ cp n1 dfrom ds ++ map Free (flat_map efree (if fwd then gone else rev gone))) Done
         (mkG (hdr g) (if top then new :: kept else kept ++ [new])) true
   else nomut g (e0 ++ e1 ++ e2 ++ (if a0 then [Free n] else []) ++ (if a1 then [Free n1] else []) ++ (if a2 then [Free n2] else [])) Failed.
 Definition script_ltbl_remove (g : gst) (fwd : bool) (key : N) : sres gst :=
@@ -253,11 +285,12 @@ Definition script_ltbl_getmulti (Sz : sizes) (g : gst) (fwd : bool) (key : N) (n
   let '(e, o) := gm_loop Sz al (if fwd then ms else rev ms) n 0%nat None 0 0 [] in
   nomut g e o.
 
-Inductive lop := LPut (uniq top fwd : bool) (key ns ds : N) | LGet (pos : nat) | LGetmulti (fwd : bool) (key : N) | LRemove (fwd : bool) (key : N)
+Inductive lop := LPut (uniq top fwd : bool) (key ns ds : N) | LPutf (uniq top fwd : bool) (key ns len : N) | LGet (pos : nat) | LGetmulti (fwd : bool) (key : N) | LRemove (fwd : bool) (key : N)
                | LNext (pos : nat) | LNone | LClear.
 Definition ltbl_step (Sz : sizes) (g : gst) (o : lop) (n : N) (al : nat -> bool) : sres gst :=
   match o with
-  | LPut uniq top fwd key ns ds => script_ltbl_put Sz g uniq top fwd key ns ds n al
+  | LPut uniq top fwd key ns ds => script_ltbl_put Sz g uniq top fwd key ns ds SCaller n al
+  | LPutf uniq top fwd key ns len => with_tmp g len n al (fun g1 t n1 al1 => script_ltbl_put Sz g1 uniq top fwd key ns (len + 1) (SBlk t) n1 al1)
   | LGet pos => match split_pos pos (els g) with Some (_, e, _) => script_getdata g e n al | None => nomut g [] Nothing end
   | LGetmulti fwd key => script_ltbl_getmulti Sz g fwd key n al
   | LRemove fwd key => script_ltbl_remove g fwd key
@@ -304,11 +337,12 @@ Definition script_list_toarray (g : gst) (size : N) (nz : list bool) (n : N) (al
   | _ => if al 0%nat then nomut g ([Alloc n TRet size] ++ copies_from n (els g) nz ++ [Return n]) Done else nomut g [AllocFail TRet size] Failed
   end.
 
-Inductive sop := SAddat (pos : nat) (ds : N) (local : bool) | SGetat (pos : nat) | SPopat (pos : nat) (tmp : bool) | SGettmp (pos : nat) | SRemoveat (pos : nat)
+Inductive sop := SAddat (pos : nat) (ds : N) (local : bool) | SAddf (pos : nat) (len : N) | SGetat (pos : nat) | SPopat (pos : nat) (tmp : bool) | SGettmp (pos : nat) | SRemoveat (pos : nat)
                | SToarray (size : N) (nz : list bool) | SReverse | SNone | SClear.
 Definition list_step (Sz : sizes) (g : gst) (o : sop) (n : N) (al : nat -> bool) : sres gst :=
   match o with
   | SAddat pos ds local => script_list_addat Sz g pos ds (if local then SOther else SCaller) n al
+  | SAddf pos len => with_tmp g len n al (fun g1 t n1 al1 => if len =? 0 then nomut g1 [] Nothing else script_list_addat Sz g1 pos len (SBlk t) n1 al1)
   | SGetat pos => match split_pos pos (els g) with Some (_, e, _) => script_getdata g e n al | None => nomut g [] Nothing end
   | SPopat pos tmp => match split_pos pos (els g) with Some (p, e, q) => script_list_popat g p e q tmp n al | None => nomut g [] Nothing end
   | SGettmp pos => match split_pos pos (els g) with Some (_, e, _) => script_list_gettmp g e n al | None => nomut g [] Nothing end
@@ -320,7 +354,7 @@ Definition list_step (Sz : sizes) (g : gst) (o : sop) (n : N) (al : nat -> bool)
   end.
 
 (* ------------------------------------------------------------------ qhasharr: only the handle and the copies handed out are allocated *)
-Inductive aop := AGet (ds : N) | ANext (ns ds : N) | ANone.
+Inductive aop := AGet (ds : N) | ANext (ns ds : N) | APutf (len : N) | ANone.
 Definition harr_step (g : gst) (o : aop) (n : N) (al : nat -> bool) : sres gst :=
   match o with
   | AGet ds => if al 0%nat then nomut g ([Alloc n TRet ds] ++ cp n SOther ds ++ [Return n]) Done else nomut g [AllocFail TRet ds] Failed
@@ -329,6 +363,7 @@ Definition harr_step (g : gst) (o : aop) (n : N) (al : nat -> bool) : sres gst :
       if al 1%nat then nomut g ([Alloc n TRet (ns + 1); Copy n SOther; Alloc (n + 1) TRet ds] ++ cp (n + 1) SOther ds ++ [Return n; Return (n + 1)]) Done
       else nomut g [Alloc n TRet (ns + 1); Copy n SOther; AllocFail TRet ds; Free n] Failed
     else nomut g [AllocFail TRet (ns + 1)] Failed
+  | APutf len => with_tmp g len n al (fun g1 t n1 al1 => mkR [] Done g1 true)
   | ANone => nomut g [] Nothing
   end.
 
